@@ -56,6 +56,10 @@ func newWorld(cfg worldCfg) (*world, error) {
 	if err != nil {
 		return nil, err
 	}
+	return newWorldOn(s, cfg)
+}
+
+func newWorldOn(s *stepper.S, cfg worldCfg) (*world, error) {
 	for _, a := range cfg.nodes {
 		s.AddPool(a, false)
 	}
